@@ -1,7 +1,7 @@
 import VtProofs.JsonGrammar
 import VtProofs.JsonTotal
 import VtProofs.Ndjson
-import VtProofs.TileJsonMerge
+import VtProofs.TileJsonText
 /-!
 # C17 — JSON round trips and containers hand back the TileJSON they were given
 
@@ -377,6 +377,41 @@ theorem merge_nonbyte_overrides (s o : TileJSON M) (ho : SortedKeys o.values) (k
 /-- `merge` keeps the value map a sorted map -/
 theorem merge_sorted (s o : TileJSON M) (hs : SortedKeys s.values) : SortedKeys (merge nu s o).values :=
   merge_values_sorted nu s o hs
+
+/-! ### the container path: text written by the writers → document handed out by the readers -/
+
+section text
+variable (ops : NumOps M)
+
+/-- the object `as_object` builds is a well-formed JSON value (sorted keys on every level) at most
+    four levels deep — for ANY document; hence `as_string` output always parses back -/
+theorem asObject_wellformed (t : TileJSON M) : WF (.obj (asObject nu t)) ∧ depth (.obj (asObject nu t)) ≤ 4 :=
+  ok_asObject nu t
+
+/-- **C17i**: `TileJSON::try_from(t.as_string()) = Ok(t)` for every well-formed document: the whole
+    text path `stringify ∘ as_object` / `from_object ∘ parse_json_str` (numbers under the f64 laws) -/
+theorem tilejson_text_roundtrip (nlaws : NumLaws ops) (tlaws : TjLaws nu) (t : TileJSON M) (h : DocWF t) :
+    ofText nu ops (toText nu ops t) = .ok t := ofText_toText_full nu ops nlaws tlaws t h
+
+/-- versatiles / pmtiles readers (`try_from_blob_or_default` on the stored text) return the stored
+    document (compression of the blob is outside the model: the codec round trip is C04's) -/
+theorem blob_reader_returns_stored (nlaws : NumLaws ops) (tlaws : TjLaws nu) (t : TileJSON M) (h : DocWF t) :
+    blobRead nu ops (toText nu ops t) = t := by
+  simp [blobRead, ofText_toText_full nu ops nlaws tlaws t h]
+
+/-- tar reader (`default.merge(try_from_blob_or_default(text))`) returns the stored document -/
+theorem tar_reader_returns_stored (nlaws : NumLaws ops) (tlaws : TjLaws nu) (t : TileJSON M) (h : DocWF t) :
+    tarRead nu ops (toText nu ops t) = t := by
+  simp [tarRead, ofText_toText_full nu ops nlaws tlaws t h, merge_default_full nu t h]
+
+/-- directory reader: the stored document, narrowed to the coverage found on disk (and nothing else:
+    see `update_frame`, `update_bounds`, `update_minzoom`, `update_maxzoom`) -/
+theorem directory_reader_narrows (nlaws : NumLaws ops) (tlaws : TjLaws nu) (t : TileJSON M) (h : DocWF t)
+    (bbox : Option (M × M × M × M)) (zmin zmax : Option Nat) :
+    directoryRead nu ops (toText nu ops t) bbox zmin zmax = updateFromPyramid nu t bbox zmin zmax := by
+  simp [directoryRead, tar_reader_returns_stored nu ops nlaws tlaws t h]
+
+end text
 
 /-! ### served `tiles.json` = stored metadata + `tiles` template + narrowed bounds/zoom -/
 
